@@ -137,12 +137,21 @@ def raiseName : Raise → String
   | .valueError => "ValueError"
   | .tableMiss => "HARNESS-TABLE-MISS"
 
+def stateJson0 (st : SState) : Json := obj [("v", ofNative st.value), ("u", ofText st.u)]
+
+/-- the signals of a scalar `set()`: `adapted` and the (value, u) a listener reads at that moment,
+    from the assignment-by-assignment trace of the model -/
+def traceSignals (E : Env) (k : Kind) (x : Native) : Json :=
+  match Flatland.C04.scalarSetTrace E k Flatland.C04.blankState x with
+  | .ok (_, _, sigs) => ofList (fun (p : Bool × SState) => Json.arr #[Json.bool p.1, stateJson0 p.2]) sigs
+  | .error _ => Json.null
+
 def setJson (r : Except Raise SetResult) : Json :=
   match r with
   | .error e => obj [("exc", Json.str (raiseName e)), ("flag", Json.null), ("value", Json.null),
-                     ("u", Json.null), ("raw", Json.null), ("signals", Json.null)]
+                     ("u", Json.null), ("raw", Json.null)]
   | .ok r => obj [("exc", Json.null), ("flag", Json.bool r.flag), ("value", ofNative r.st.value), ("raw", ofNative r.st.raw),
-                  ("u", ofText r.st.u), ("signals", ofList Json.bool r.signals)]
+                  ("u", ofText r.st.u)]
 
 def envOf (j : Json) : Except String Env := do
   let conv ← parseConv (fldD j "conv" (Json.arr #[]))
@@ -154,9 +163,9 @@ def runScalar (j : Json) : Except String Json := do
   let k ← parseKind (← fld j "kind")
   let x ← parseNative (← fld j "x")
   let r := setScalar E k x
-  let first := setJson r
+  let first := (setJson r).setObjVal! "signals" (traceSignals E k x)
   let reset := match r with
-    | .ok res => if res.flag then setJson (setScalar E k (.str res.st.u)) else Json.null
+    | .ok res => if res.flag then (setJson (setScalar E k (.str res.st.u))).setObjVal! "signals" (traceSignals E k (.str res.st.u)) else Json.null
     | .error _ => Json.null
   let entries ← parseConvEntries (fldD j "conv" (Json.arr #[]))
   return obj [("set", first), ("reset", reset),
@@ -236,7 +245,7 @@ def runTree (j : Json) : Except String Json := do
                             ("tree", Json.null)]
   | .ok out =>
     return obj [("exc", Json.null), ("flag", Json.bool out.flag),
-      ("sigs", ofList (fun (s : Flatland.C04.Sig) => Json.arr #[ofNats s.1, Json.bool s.2]) out.sigs),
+      ("sigs", ofList (fun (s : Flatland.C04.Sig) => Json.arr #[ofNats s.1, Json.bool s.2.1, elemJson s.2.2]) out.sigs),
       ("tree", elemJson out.elem)]
 
 def run (j : Json) : Except String Json := do
